@@ -966,6 +966,24 @@ Definition ed_learn (e : editor') (syllables text : list N) : outcome (editor' *
 Definition ed_unlearn (e : editor') (syllables text : list N) : editor' :=
   let s := sh e in mkEditor (set_dict s (do_remove dops (dict s) syllables text) (dirty s + 1)%N) (st e).
 
+(* Editor::clamp_page_no (fix 68d3a38): after the page size or the user dictionary changed while a
+   list is open the page index is brought back below the page count *)
+Definition clamp_page (e : editor') : outcome editor' :=
+  match st e with
+  | Selecting pg act sel =>
+    if Nat.eqb (o_per_page (opts (sh e))) 0 then Ok e
+    else do tp <- total_page (sh e) sel; Ok (mkEditor (sh e) (Selecting (Nat.min pg (tp - 1)) act sel))
+  | _ => Ok e
+  end.
+
+(* the public operations as the source has them: set_editor_options / learn_phrase / unlearn_phrase
+   followed by clamp_page_no *)
+Definition ed_set_options_c (e : editor') (o : options) : outcome editor' := clamp_page (ed_set_options e o).
+Definition ed_learn_c (e : editor') (syllables text : list N) : outcome (editor' * bool) :=
+  do r <- ed_learn e syllables text; do e' <- clamp_page (fst r); Ok (e', snd r).
+Definition ed_unlearn_c (e : editor') (syllables text : list N) : outcome editor' :=
+  clamp_page (ed_unlearn e syllables text).
+
 (* observers *)
 Definition ed_all_candidates (e : editor') : outcome (option (list (list N))) :=
   match st e with
